@@ -34,3 +34,9 @@ Definition rec_native (w : world) (r : nat) : bool := is_mucv (recs w r).
 Definition lock_field (v : Z) : Z := mu_lockf v.
 Definition owed_of (w : world) (t : nat) : Z := owed w t.
 Definition wlog_len (w : world) : nat := length (wlog w).
+(* wake_waiters after the CAS that took the mutex spinlock: what is left on to_wake_list, and how many of those are native
+   waiter structs not associated with the mutex (waiters of nsync_cv_wait_with_deadline_generic: woken, not transferred: F16) *)
+Definition wake_list (w : world) (t : nat) : list nat :=
+  match t_pc (get w t) with VLoad3 k | VCas2 k _ | VLoad5 k | VStore k => k_wake k | _ => [] end.
+Definition generic_left (w : world) (t : nat) : nat :=
+  length (filter (fun r => is_mucv (recs w r) && negb (cv_mu (recs w r))) (wake_list w t)).
